@@ -240,7 +240,10 @@ def cli_batch(res):
                      b'-- t\n-- a\nx=1 -- #include inc.lua\ny=2\n',
                      # header comments whose lines end in blanks / TABs (the comment's text runs to the line end)
                      b'-- my game  \n-- by me\t\nx=1\n', b'// title \n//\t \nx=1\n', b'--[[ a  \n  b\t\n]]\n-- c \ny=2\n',
-                     b'--[=[ a \n \n\t\nb ]=] \n--   \nz=3\n'):
+                     b'--[=[ a \n \n\t\nb ]=] \n--   \nz=3\n',
+                     # header comments holding glyphs of the low range only (bytes 16..31, 127), of the high range only, both
+                     b'-- block drop \x1b v1.2\n-- by \x7f studio\nx=1\n', b'// \x10\x11\x1f\n--[[\x1c\x1d]]\nx=1\n',
+                     b'-- \x8e jump \x97\n-- \x1e and \x99\ny=2\n'):
             shapes.append((None, text))
         for n, (seq, fol) in enumerate(shapes):
             src = fol if seq is None else header_source(seq, fol, BODIES[n % 3])
